@@ -123,6 +123,9 @@ def gen_data(rng):
         "ml_score_aaa": rng.uniform(0, 1, n), "ml_score_bbb": rng.uniform(0, 1, n),
     }
     d["area_msd"] = d["area_cvx"] * rng.uniform(0.8, 1, n)
+    if rng.random() < 0.35:
+        # two-channel measurement: the two-channel crosstalk recipes apply
+        d.pop(["fl1_max", "fl2_max", "fl3_max"][int(rng.integers(0, 3))])
     if rng.random() < 0.5:
         d["area_um"] = rng.uniform(20, 200, n)
     if rng.random() < 0.5:
@@ -326,12 +329,33 @@ def run_history(ctx, idx, rng, tmp):
                     hist.append(["set", sec, key, v])
                 for f in read_before:
                     read_before[f] = "changed"
-            elif r < 0.46 and step % 3 == 0:
+            elif r < 0.47 and step % 2 == 0:
                 # chain probe: read a feature that depends on a computed feature, change an
                 # ingredient of the *intermediate* feature only, read again
-                feat, sec, key = [("vmon_plugin2", "imaging", "pixel size"),
-                                  ("vmon_plugin3", "calculation", "emodulus temperature"),
-                                  ("vmon_plugin3", "setup", "flow rate")][int(rng.integers(0, 3))]
+                probes = [("vmon_plugin2", "imaging", "pixel size"),
+                          ("vmon_plugin3", "calculation", "emodulus temperature"),
+                          ("vmon_plugin3", "setup", "flow rate")]
+                # crosstalk: every matrix element that is set enters the correction, also the
+                # ones a two-channel recipe does not *require*
+                present = [i for i in (1, 2, 3) if f"fl{i}_max" in data]
+                for i in present:
+                    for a in (1, 2, 3):
+                        for b in (1, 2, 3):
+                            if a != b:
+                                probes.append((f"fl{i}_max_ctc", "calculation",
+                                               f"crosstalk fl{a}{b}"))
+                feat, sec, key = probes[int(rng.integers(0, len(probes)))]
+                if "crosstalk" in key and rng.random() < 0.8:
+                    # make the corrected feature computable first: all elements among the
+                    # channels that are present
+                    for a in present:
+                        for b in present:
+                            if a != b and f"crosstalk fl{a}{b}" not in eff_cfg()["calculation"]:
+                                v0 = float(rng.choice([0.05, 0.1, 0.2]))
+                                ds.config["calculation"][f"crosstalk fl{a}{b}"] = v0
+                                cfg["calculation"][f"crosstalk fl{a}{b}"] = v0
+                                deleted.discard(("calculation", f"crosstalk fl{a}{b}"))
+                                hist.append(["set", "calculation", f"crosstalk fl{a}{b}", v0])
                 for rep in range(2):
                     twin = build(kind, data, {s_: dict(kv) for s_, kv in cfg.items()}, temp, tmp,
                                  idx)
@@ -348,7 +372,8 @@ def run_history(ctx, idx, rng, tmp):
                     finally:
                         twin.close()
                     if rep == 0:
-                        choices = CFG_CHOICES[(sec, key)]
+                        choices = list(CFG_CHOICES[(sec, key)]) + ([0.15, 0.25]
+                                                                   if "crosstalk" in key else [])
                         cur = eff_cfg().get(sec, {}).get(key)
                         v = [c for c in choices if c != cur][int(rng.integers(
                             0, len([c for c in choices if c != cur])))]
